@@ -143,8 +143,69 @@ func init() {
 			x.defBool("directorCopiesSameField", copies)
 			x.defStrList("directorOtherWrites", others)
 		}
+		c07responseWriter(x)
 		return nil
 	})
+}
+
+// c07responseWriter: the status/size wrapper passes every WriteHeader and Write on to the wrapped writer.
+//   rwWriteHeaderForwards   `rw.w.WriteHeader(statusCode)` is a top-level statement of WriteHeader and nothing
+//                           before it can leave the function or is conditional
+//   rwWriteHeaderRecords    `rw.code = statusCode` is a top-level statement
+//   rwWriteForwards         Write hands its argument to `rw.w.Write` and returns that call's results
+func c07responseWriter(x *X) {
+	wh := x.funcDecl("proxy", "responseWriter", "WriteHeader")
+	if wh != nil && wh.Body != nil && wh.Type.Params != nil && len(wh.Type.Params.List) == 1 && len(wh.Type.Params.List[0].Names) == 1 {
+		arg := wh.Type.Params.List[0].Names[0].Name
+		forwards, records, clean := false, false, true
+		var top []string
+		for _, st := range wh.Body.List {
+			top = append(top, c07stmts(x, st)...)
+			switch s := st.(type) {
+			case *ast.ExprStmt:
+				if x.src(s.X) == "rw.w.WriteHeader("+arg+")" {
+					forwards = forwards || clean
+				}
+			case *ast.AssignStmt:
+				if len(s.Lhs) == 1 && len(s.Rhs) == 1 && x.src(s.Lhs[0]) == "rw.code" && x.src(s.Rhs[0]) == arg && s.Tok == token.ASSIGN {
+					records = true
+				}
+			default:
+				// an if/switch/return/defer/go… in front of the forwarding call could skip or alter it
+				if !forwards {
+					clean = false
+				}
+			}
+		}
+		x.defBool("rwWriteHeaderForwards", forwards)
+		x.defBool("rwWriteHeaderRecords", records)
+		x.defStrList("rwWriteHeaderStmts", top)
+	} else {
+		x.fail("proxy.responseWriter.WriteHeader: not found or unexpected signature")
+	}
+	wr := x.funcDecl("proxy", "responseWriter", "Write")
+	if wr != nil && wr.Body != nil && len(wr.Body.List) > 0 {
+		fw := false
+		if as, ok := wr.Body.List[0].(*ast.AssignStmt); ok && len(as.Rhs) == 1 && x.src(as.Rhs[0]) == "rw.w.Write(b)" && x.src(as.Lhs[0]) == "n" {
+			if rt, ok := wr.Body.List[len(wr.Body.List)-1].(*ast.ReturnStmt); ok && len(rt.Results) == 2 && x.src(rt.Results[0]) == "n" {
+				fw = true
+			}
+		}
+		x.defBool("rwWriteForwards", fw)
+	} else {
+		x.fail("proxy.responseWriter.Write: not found")
+	}
+	// ServeHTTP hands the wrapper, not the bare writer, to the handler
+	fd := x.funcDecl("proxy", "HTTPProxy", "ServeHTTP")
+	wrapped := false
+	if fd != nil {
+		for _, c := range x.calls(fd, "h.ServeHTTP") {
+			if len(c.Args) == 2 && x.src(c.Args[0]) == "rw" {
+				wrapped = true
+			}
+		}
+	}
+	x.defBool("serveUsesResponseWriter", wrapped)
 }
 
 // c07stmts renders a statement as a flat list: conditions as "if <cond>", "else", assignments and calls as source.
